@@ -16,8 +16,8 @@ RULE = (
 )
 ASSUMPTIONS = ["metrics eligible for the supervised clause: the 41 rows of the table that are symmetric dissimilarities (gaussian, statistic, KL, K-divergence, Neyman, Pearson are not)"]
 BUDGET = {
-    "quick": {"examples": 6400, "shards": 8, "min_nontrivial": 1000, "min_per_name": 5},
-    "thorough": {"examples": 40000, "shards": 16, "min_nontrivial": 6000, "min_per_name": 40, "max_wall": 3000},
+    "quick": {"examples": 12800, "shards": 16, "min_nontrivial": 1000, "min_per_name": 5},
+    "thorough": {"examples": 160000, "shards": 16, "min_nontrivial": 6000, "min_per_name": 40, "max_wall": 3000},
 }
 ELIGIBLE = M.MODEL_METRICS
 assert len(ELIGIBLE) == 41
